@@ -396,10 +396,15 @@ def units(tier, seed):
     out.append(("faults", {"jobset": 'keys', "arg": 'SECP160r1', "examples": 40 if tier == "quick" else 1500, "triples": 400 if tier == "quick" else 20000}))
     out.append(("faults", {"jobset": 'keys', "arg": 't23a', "examples": 40 if tier == "quick" else 1500, "triples": 400 if tier == "quick" else 20000}))
     out.append(("faults", {"jobset": 'keys', "arg": 'BRAINPOOLP160r1', "examples": 40 if tier == "quick" else 1500, "triples": 400 if tier == "quick" else 20000}))
+    out.append(("inject", {"level": 'keys', "curve": 't23a', "max_points": 200 if tier == "quick" else 4000}))
     return out
 
 
 def run_unit(ctx, name, **kw):
+    if name == "inject":
+        from . import inject
+        inject.run(ctx, **kw)
+        return
     if name == "faults":
         from . import faults
         faults.run_set(ctx, **kw)
@@ -460,6 +465,10 @@ def run_unit(ctx, name, **kw):
 
 
 def replay(ctx, case):
+    if case.get("kind") == "inject":
+        from . import inject
+        inject.replay(ctx, case)
+        return
     if case.get("kind") == "fault-history":
         from . import faults
         faults.replay(ctx, case)
